@@ -280,9 +280,13 @@ class Driver:
                 self.marker("body_enter", [condsnap])
                 self.run_steps(body, nested=True)
                 return None
+            gobjs = self.__dict__.setdefault("gobjs", [])
+            g = gobjs[-1] if (st.get("same") and gobjs) else rt.guarded(cond)     # "same": re-enter the enclosing region's guarded object
+            gobjs.append(g)
             try:
-                return rt.guarded(cond)(fn)()
+                return g(fn)()
             finally:
+                gobjs.pop()
                 self.extra = {"entered": flag["entered"]}
         if op == "try":
             try:
